@@ -4,7 +4,8 @@ Theorems (FinVerif/Props/C10a..d) are about the GENERATED real models of FXForwa
 FXVanillaOption.value/delta/fast_delta, the module-level fast_delta, the strike objective `g` and solve_for_strike
 (Gen/FXR = the code's own N; Gen/FXP = same source with the cdf / inverse cdf abstracted; tied by rfl): CIP forward,
 forward at par = 0, premium views, call - put = forward (partial: t_exp = t_del; counterexample), FOR/DOM symmetry,
-the four quoted deltas = derivatives, strike-from-delta returns the delta (closed forms; solver given its postcondition).
+the four quoted deltas = derivatives, strike-from-delta returns the delta (closed forms; solver given its postcondition),
+DOM-notional forward = FOR-notional forward on N/K (since /repo d214945).
 Correspondence: the implementation (classes and compiled functions) vs the Float instantiation of the same generated
 code (Driver/C10) on every key of value(...), delta(...), FXForward.forward/value, fast_delta, g, solve_for_strike.
 Direct oracles on the implementation (the executable reading of the property), every run: CIP with the harness's own
@@ -28,10 +29,9 @@ from props import c05 as K5  # noqa: E402   (noise model of the Hull N for bump 
 
 GEN = ['BSF', 'BSR', 'BSP', 'FXF', 'FXR', 'FXP']
 PROPS = ['FinVerif.Props.C10t', 'FinVerif.Props.C10a', 'FinVerif.Props.C10b', 'FinVerif.Props.C10c', 'FinVerif.Props.C10d',
-         'FinVerif.Props.C10v', 'FinVerif.Props.C10w']
+         'FinVerif.Props.C10w']
 # modules whose theorems STATE a known defect (they stop building when it is repaired): module -> (finding, oracle clause)
-DEFECT_PROPS = {'FinVerif.Props.C10v': ('C10/forward-dom-notional-value', 'forward:value'),
-                'FinVerif.Props.C10w': ('C10/forward-cash-double-notional', 'forward:cash')}
+DEFECT_PROPS = {'FinVerif.Props.C10w': ('C10/forward-cash-double-notional', 'forward:cash')}
 DRIVERS = ['FinVerif.Driver.C10']
 
 RULE = ('cases drawn from VERIF_SEED: valuation date uniform 2016-2026 (any weekday), expiry 1 day..10y (log-uniform, plus '
@@ -44,9 +44,7 @@ RULE = ('cases drawn from VERIF_SEED: valuation date uniform 2016-2026 (any week
 E0 = K5.E0
 F_PARITY = 'C10/parity-texp-vs-tdel'
 F_LAG = 'C10/forward-option-spot-lag-mismatch'
-F_DOMVAL = 'C10/forward-dom-notional-value'
 F_CASH = 'C10/forward-cash-double-notional'
-F_BUMP = 'C10/delta-bump-keyerror'
 F_SOLVER = 'C10/strike-solver-divergence'
 VALUE_KEYS = ['v', 'cash_dom', 'cash_for', 'pips_dom', 'pips_for', 'pct_dom', 'pct_for', 'not_dom', 'not_for']
 FWD_KEYS = ['value', 'cash_dom', 'cash_for', 'not_dom', 'not_for']
@@ -356,7 +354,7 @@ def run(ctx):
                 impl = [float(rv[k]) for k in FWD_KEYS]
                 nd = nn if ncode == DOM else nn * K
                 nf = nn / K if ncode == DOM else nn
-                fsc = dex * (F_spec + K) * nn * (F_spec if ncode == DOM else 1.0)
+                fsc = dex * (F_spec + K) * nf
                 corr.add('FXForward.value (5 keys)', 'fwdval ' + fl([t_exp, S, dex, t_fwd, ffw, dfw, K, nn]) + f' {ncode} {DOM} {FOR}',
                          impl, [fsc, fsc * nd / K, fsc * nf / S, nd, nf], base)
                 cnt['fwdval'] += 2
@@ -365,10 +363,7 @@ def run(ctx):
                          'spec_value(not_for*df*(F-K))': spec_v}
                 vt = 1e-10 * dex * (F_spec + K) * nf
                 if not abs(impl[0] - spec_v) <= vt:
-                    fnd = None
-                    if ncode == DOM and abs(impl[0] - nn * dex * (F_impl - K) * F_impl) <= 1e-10 * abs(fsc):
-                        fnd = F_DOMVAL
-                    viol(ctx, 'FXForward.value != notional_for * df_dom * (F - K)', fcase, 'forward:value', finding=fnd)
+                    viol(ctx, 'FXForward.value != notional_for * df_dom * (F - K)', fcase, 'forward:value')
                 # the cash views of the value: cash_dom = value, cash_for = value / spot
                 if not (abs(impl[1] - impl[0]) <= 1e-10 * abs(impl[0]) + vt and abs(impl[2] * S - impl[0]) <= 1e-10 * abs(impl[0]) + vt):
                     fnd = F_CASH if (abs(impl[1] - impl[0] * nd / K) <= 1e-9 * abs(impl[1]) + vt
@@ -448,21 +443,33 @@ def run(ctx):
                     viol(ctx, f'{nm} is not {meaning} of the reported value (central difference)',
                          {**base, 'ty': ty, nm: got, 'bump_derivative': ref, 'tol': tol, 'h': h, 'df_for(t_del)': fd_},
                          f'delta=bump:{nm}')
-            # the library's own delta_bump
-            cnt['bump'] += 1
+            # the library's own delta_bump (forward difference, bump = 1e-4 x spot) against (a) the same difference quotient
+            # formed by the harness from the reported values, (b) the analytic pips spot delta, (c) the harness's central difference
+            cnt['bump'] += 3
             try:
                 db = float(opt[ty].delta_bump(vd, S, dom, forc, model))
-                bsz = 1e-4 * S
-                gam = abs(dV1 - dV2) / h + dq / (S * max(sdv, 1e-3))
-                tolb = gam * bsz + float(K5.value_noise(K5.bump(Pt, 's', bsz), Pt)[0]) / bsz + 1.2 * E0 * dq + 1e-9
-                if not abs(db - float(d['pips_spot_delta'])) <= tolb:
-                    viol(ctx, 'delta_bump differs from pips_spot_delta beyond the forward-difference error',
-                         {**base, 'ty': ty, 'delta_bump': db, 'pips_spot_delta': float(d['pips_spot_delta']), 'tol': tolb},
-                         'delta=bump:delta_bump')
-            except Exception as e:  # noqa: BLE001
-                fnd = F_BUMP if (isinstance(e, KeyError) and e.args == ('value',)) else None
+            except Exception as e:  # noqa: BLE001   (was the known finding C10/delta-bump-keyerror; fixed in /repo 3de63ed)
                 viol(ctx, 'FXVanillaOption.delta_bump raises', {**base, 'ty': ty, 'error': repr(e)[:200]},
-                     'delta=bump:delta_bump-defined', finding=fnd)
+                     'delta=bump:delta_bump-defined')
+                continue
+            bsz = 0.0001 * S
+            v0 = float(vals[ty]['v'])
+            v1 = float(opt[ty].value(vd, S + bsz, dom, forc, model)['v'])
+            own_fd = (v1 - v0) / bsz
+            bcase = {**base, 'ty': ty, 'delta_bump': db, 'own_forward_difference': own_fd,
+                     'pips_spot_delta': float(d['pips_spot_delta']), 'central_difference': dV1}
+            if not abs(db - own_fd) <= 1e-9 * abs(own_fd) + 1e-13 * vsc / bsz:
+                viol(ctx, 'delta_bump is not (v(S + 1e-4 S) - v(S)) / (1e-4 S) of the reported value', bcase,
+                     'delta=bump:delta_bump=own-difference')
+            nb = float(K5.value_noise(K5.bump(Pt, 's', bsz), Pt)[0]) / bsz
+            gam = abs(dV1 - dV2) / h + 2.0 * dq / (S * max(sdv, 1e-3))       # bound on |gamma| near S (phi(d1) <= 0.4)
+            tolb = gam * bsz + nb + 1.2 * E0 * dq + 1e-9
+            if not abs(db - float(d['pips_spot_delta'])) <= tolb:
+                viol(ctx, 'delta_bump differs from pips_spot_delta beyond the forward-difference error', {**bcase, 'tol': tolb},
+                     'delta=bump:delta_bump=pips_spot_delta')
+            if not abs(db - dV1) <= tolb + errV:
+                viol(ctx, 'delta_bump differs from the central difference of the reported value', {**bcase, 'tol': tolb + errV},
+                     'delta=bump:delta_bump=central')
 
     ctx.count('O:delivery date = expiry + spot-day lag (own weekday arithmetic)', cnt['dates'], sample={'cases': n_cases})
     ctx.count('O:premium views are one number', cnt['views'])
